@@ -146,6 +146,7 @@ type runTracer struct {
 	skip      map[string]bool
 	preCnt    [3]float64  // SICKER, CAPSUM, DRAISUM before Water() (sub.pre)
 	afDsumm, afC10 float64
+	ende0     int // end date at the start of the day loop
 	c1Move    [21]float64 // mineral N per layer before nmove() (nitro.move)
 	stopped   bool
 }
@@ -309,6 +310,8 @@ func (t *runTracer) probe(point string, g *hermes.GlobalVarsMain, extra ...inter
 		e["N"] = n
 		e["begin"] = g.BEGINN
 		e["ende"] = g.ENDE
+		t.ende0 = g.ENDE
+		e["prognos"], e["p1"], e["p2"] = g.PROGNOS, g.P1, g.P2
 		e["outn"] = g.OUTN
 		e["draidep"] = g.DRAIDEP
 		e["draifak"] = fx("DRAIFAK", g.DRAIFAK, 9)
@@ -659,6 +662,10 @@ func (t *runTracer) probe(point string, g *hermes.GlobalVarsMain, extra ...inter
 		e["outday"] = extra[2].(int)
 		e["doy"] = g.TAG.Index + 1
 		e["ende"] = g.ENDE
+		if g.PROGNOS <= t.ende0 {
+			// fertiliser-prediction mode (Prognose.tla): the state of the end-date machine after the day
+			e["pg"] = ev{"p1": g.P1, "p2": g.P2, "dbl": g.DOUBLE, "asip": g.ASIP, "reif": g.REIF, "endst": int(g.ENDSTADIUM), "ernte": g.ERNTE[g.AKF.Index], "prognos": g.PROGNOS}
+		}
 	default:
 		return
 	}
